@@ -644,6 +644,14 @@ CleanExitsFree == [][(act'.name = "Maintain" /\
 NoForkOnRaise == [][(act'.name = "Maintain" /\ raised') => Len(pool') <= Len(pool)]_vars
 AckResetsBudget == [][act'.name = "RH_Ack" => rs'.R = 0]_vars
 
+(* C07 / C09: a result taken from the pipe for a job of the table is credited to the worker that  *)
+(* ran it, whenever that worker was started -- so that it need not wait out its 30 s guard before *)
+(* it may leave (quota, sentinel at close)                                                         *)
+CreditOnReady == [][(act'.name = "RH_Ready" /\ job[act'.j].incache /\ job[act'.j].owner \in PoolPids(pool))
+                      => LET p == job[act'.j].owner IN
+                         /\ p \in PoolPids(pool')
+                         /\ pool'[IdxOf(pool', p)].cnt = pool[IdxOf(pool, p)].cnt + 1]_vars
+
 (* ========================================================================= *)
 (* binding                                                                    *)
 Proj == [hook |-> hook, scanning |-> scanning, snap |-> snap, pstate |-> pstate, nsub |-> nsub, job |-> [j \in 1..nsub |-> job[j]],
